@@ -40,11 +40,11 @@ CLAIMED={
    ref="DESIGN.md 4 (C12)"),
  "C09": dict(
    text="Differential exhaustive check without expected values: on disks with 1..N free blocks and a large one, in every state reached by a bounded building sequence, every request of a list of candidates that fail part-way is issued; if it returns an error, dump (incl. handles), free counts, fsck, reclaim and cache audits must equal those of the run without it, and every bounded suffix of further operations (incl. restart) must reply and end identically.",
-   note="Trusted: determinism of the controlled executions (the two runs differ only by the failed request; server-chosen times and inode numbers are excluded from the suffix comparison). Bounds: building depth, candidate list, suffix length, disk sizes; nearly-exhausted inode tables are not built (32k creates) - inode exhaustion is exercised by C15's fill only.",
+   note="Trusted: determinism of the controlled executions (the two runs differ only by the failed request; server-chosen times and inode numbers are excluded from the suffix comparison). Bounds: building depth plus named deeper states (full directory block, full disk), candidate list incl. transactions that fail only at commit, suffix length, disk sizes; nearly-exhausted inode tables are not built (32k creates) - inode exhaustion is exercised by C15's fill only.",
    technique="explicit-state differential search over operation sequences of the implementation (run with vs without the failing request)",
    ref="DESIGN.md 4 (C09)"),
  "C08": dict(
-   text="Breadth-first search over create/remove/rename-over/restart/crash-restart cycles with immediate inode-number reuse; in every state every handle ever issued (live or dead) is used in every procedure and every handle position; dead handles must answer STALE/BADHANDLE and change nothing, live handles must denote the bound object, new handles must never repeat.",
+   text="Breadth-first search over create/remove/rename-over/restart/crash-restart cycles with immediate inode-number reuse; in every state every handle ever issued (live or dead) is used in every procedure and every handle position; dead handles must answer STALE/BADHANDLE and change nothing, live handles must denote the bound object, new handles must never repeat; a dead handle is also paired with the live handle of the same inode number; a second search over directory-over-directory renames.",
    note="Trusted: reference model's handle binding. Bounds: depth, two directories, a few names; inode exhaustion/wrap-around of the allocator is not reached (restart-driven reuse instead).",
    technique="explicit-state search over operation sequences of the implementation with an exhaustive handle/procedure probe in every state",
    ref="DESIGN.md 4 (C08)"),
@@ -54,12 +54,12 @@ CLAIMED={
    technique="explicit-state search over operation sequences of the implementation with a differential (running vs restarted vs recovered) oracle",
    ref="DESIGN.md 4 (C10)"),
  "C05": dict(
-   text="Reclaim audit (marked in use == reachable from the root; in-memory allocators == on-disk bitmaps; free counts return to the fresh values after delete-everything) in every state of a breadth-first search over a build/delete alphabet with background frees run to completion under the scheduler; on every crash image of histories that free a 530-block file in several background transactions, after the property's touch/reuse procedure; and at the end of every schedule of the concurrent-free harnesses.",
+   text="Reclaim audit (marked in use == reachable from the root; in-memory allocators == on-disk bitmaps; free counts return to the fresh values after delete-everything) in every state of a breadth-first search over a build/delete alphabet with background frees run to completion under the scheduler; on every crash image of histories that free a 530-block file in several background transactions, after the property's touch/reuse procedure (two variants: touch with SETATTR and reuse inode numbers; delete everything first); a second search on a disk with 10 free blocks; and at the end of every schedule of the concurrent-free harnesses.",
    note="Trusted: fsck decoders; scheduler-based waiting for shrinkers (no sleeping). Bounds: depth, alphabet, 2200/3000-block disks, image cap per history in quick (exhaustive:false), deviation bound.",
    technique="explicit-state search + crash-image enumeration + schedule exploration of the implementation with a reachability/bitmap audit as invariant",
    ref="DESIGN.md 4 (C05)"),
  "C04": dict(
-   text="An independent fsck (own decoders, log-aware) is the only oracle of three exhaustive explorations: every state of a breadth-first search over a namespace/data alphabet extended with directory renames, REMOVE/SETATTR on directories and background frees; the final state of every schedule of the C03 harnesses within the bound; the logical disk of every crash image of the C01 crash histories.",
+   text="An independent fsck (own decoders, log-aware) is the only oracle of three exhaustive explorations: every state of a breadth-first search over a namespace/data alphabet extended with directory renames, REMOVE/SETATTR on directories and background frees; the final state of every schedule of the C03 harnesses within the bound; the logical disk of every crash image of the C01 crash histories and of the multi-transaction free of a 530-block file; a second search over writes/truncations at every indirection boundary; multi-block directories reduced to one survivor.",
    note="Trusted: fsck's own reading of the on-disk format (little-endian inode/dirent layout, circular log header). Bounds: as C02/C03/C01 at the tier's depths; capped loss enumeration reported as exhaustive:false.",
    technique="explicit-state search + schedule exploration + crash-image enumeration of the implementation with a structural invariant (fsck) evaluated in every state/image",
    ref="DESIGN.md 4 (C04)"),
@@ -74,8 +74,8 @@ CLAIMED={
    technique="stateless deviation-bounded schedule exploration of the implementation (controlled scheduler) with happens-before state caching and a linearizability oracle",
    ref="DESIGN.md 4 (C03)"),
  "C06": dict(
-   text="(a) explicit-state search over requests whose inodes coincide or are ordered arbitrarily: a single client never waits on itself or exceeds the horizon; (b) lock-acquisition traces of every probe operation in states with inverted inode numbers and cold caches, every opposite-order pair run concurrently under all schedules within the bound - only a real deadlock schedule counts; (c) deadlock verdicts of the C03 harnesses. Deadlocks are identified by the call sites on the wait-for cycle.",
-   note="Trusted: scheduler shim; lock events woven into the go-journal copy's lockmap. Bounds: depth, probe alphabet, four named states, deviation bound 2/3.",
+   text="(a) explicit-state search over requests whose inodes coincide or are ordered arbitrarily: a single client never waits on itself or exceeds the horizon; (b) lock-acquisition traces of every probe operation in states with inverted inode numbers and cold caches, every opposite-order pair run concurrently under all schedules within the bound - only a real deadlock schedule counts; (c) deadlock and horizon (livelock) verdicts of all schedules within one deviation of the C03 harnesses with renames, inverted inode numbers or background frees. Deadlocks are identified by the call sites on the wait-for cycle.",
+   note="Trusted: scheduler shim; lock events woven into the go-journal copy's lockmap. Bounds: depth, probe alphabet, four named states plus all states of a shape search of depth 2/3 (warm and cold caches), deviation bound 2/3, horizon 400000 scheduling points.",
    technique="explicit-state search + predictive lock-order analysis confirmed by deviation-bounded schedule exploration of the implementation",
    ref="DESIGN.md 4 (C06)"),
  "C01": dict(
@@ -89,8 +89,8 @@ CLAIMED={
    technique="crash-image enumeration + explicit-state search over operation sequences of the implementation",
    ref="DESIGN.md 4 (C07)"),
  "C02": dict(
-   text="Explicit-state breadth-first search over operation sequences on the real server against a reference file system: namespace/data alphabet (29 symbols, both with and without the unstable option), name lengths 0..256, and offsets/sizes at every block and indirection boundary up to the announced maximum; after every transition the reply, an observation sweep with every read-only procedure, and a full-tree dump incl. handles are compared.",
-   note="Trusted: the reference model (reffs) and its stated tolerance points (DESIGN.md Appendix A); state key = model + installed disk + allocator cursors + inode cache (log position is abstracted away). Bounds: depth, alphabets, two directories and a handful of names. XDR/RPC transport replay is not part of this check yet (see C16 for the codec).",
+   text="Explicit-state breadth-first search over operation sequences on the real server against a reference file system: namespace/data alphabet (about 40 symbols; with and without the unstable option; once more through the XDR/dispatch path), name lengths 0..256, and offsets/sizes at every block and indirection boundary up to the announced maximum; after every transition the reply, an observation sweep with every read-only procedure, and a full-tree dump incl. handles are compared.",
+   note="Trusted: the reference model (reffs) and its stated tolerance points (DESIGN.md Appendix A); state key = model + installed disk + allocator cursors + inode cache (log position is abstracted away). Bounds: depth, alphabets, two directories and a handful of names. The transport path is covered by a third namespace search in which every request is XDR-encoded, dispatched by procedure number through the server's registration table and the XDR reply decoded (fsx.XDRProxy); go-rpcgen's RPC header/record marking in front of it is not exercised.",
    technique="explicit-state search over operation sequences of the implementation with a reference-model oracle",
    ref="DESIGN.md 4 (C02)"),
  "C18": dict(
